@@ -17,8 +17,10 @@ import RedisVerif.Model.NMap
     responses.
   * `search` / `checkLinOne`: an executable WGL-style search for such an insertion (fuel
     recursion), `checkLin`: per-key decomposition.  Soundness is proved in `Props/C02.lean`.
-  * `Sys`, `Step`, `Reach`: the transition system (any number of shards, clients, slots).  It is
-    a specification (functions, an inductive step relation), not run by the driver.
+  * `Sys`, `Step`, `Reach`: the transition system (any number of shards, clients, slots),
+    including clients that abandon an in-flight request.  It is a specification (functions, an
+    inductive step relation), not run by the driver.  `StepSeeded` adds the seeded variant of
+    abandoning (slot returned to the pool) for the counterexample.
 
   This file imports only core.
 -/
@@ -237,10 +239,34 @@ inductive Step : Sys σ Req Resp → Sys σ Req Resp → Prop
         slot := upd s.slot sid none
         log := s.log ++ [.res id resp] }
 
+  /-- the client gives up on an in-flight request (timeout, disconnect: the request future is
+      dropped mid-await).  As the code does: the slot is NOT returned to the pool — it leaks; a
+      message still queued keeps its reference, and the shard's later reply goes into a slot
+      nobody reads.  The operation keeps its invocation and never gets a response. -/
+  | abandon (s : Sys σ Req Resp) (c id : Nat) (req : Req) (sid : Nat)
+      (hc : s.client c = .waiting id req sid) :
+      Step s { s with client := upd s.client c .idle }
+
 /-- every finite execution from the initial state (every interleaving) -/
 inductive Reach (s0 : σ) (pool : Nat) : Sys σ Req Resp → Prop
   | init : Reach s0 pool (Sys.init s0 pool)
   | step {s s' : Sys σ Req Resp} : Reach s0 pool s → Step step route s s' → Reach s0 pool s'
+
+/-- the SEEDED discipline (an RAII guard around the acquired slot): a client that gives up resets
+    its slot and returns it to the pool although a queued message may still reference it -/
+inductive StepSeeded : Sys σ Req Resp → Sys σ Req Resp → Prop
+  | base {s s' : Sys σ Req Resp} : Step step route s s' → StepSeeded s s'
+  | abandonRelease (s : Sys σ Req Resp) (c id : Nat) (req : Req) (sid : Nat)
+      (hc : s.client c = .waiting id req sid) :
+      StepSeeded s { s with
+        client := upd s.client c .idle
+        slot := upd s.slot sid none
+        pool := s.pool ++ [sid] }
+
+inductive ReachSeeded (s0 : σ) (pool : Nat) : Sys σ Req Resp → Prop
+  | init : ReachSeeded s0 pool (Sys.init s0 pool)
+  | step {s s' : Sys σ Req Resp} : ReachSeeded s0 pool s → StepSeeded step route s s' →
+      ReachSeeded s0 pool s'
 
 end sys
 
